@@ -27,6 +27,7 @@ import (
 	"github.com/dadrus/heimdall/internal/x/errorchain"
 	"github.com/dadrus/heimdall/internal/x/radixtree"
 	"github.com/dadrus/heimdall/internal/x/slicex"
+	"github.com/dadrus/heimdall/internal/x/veriftrace"
 )
 
 type repository struct {
@@ -58,6 +59,9 @@ func (r *repository) FindRule(ctx heimdall.Context) (rule.Rule, error) {
 
 	r.rulesTreeMutex.RLock()
 	defer r.rulesTreeMutex.RUnlock()
+	veriftrace.Point("repo.rlock")
+	defer veriftrace.Point("repo.runlock")
+	veriftrace.Point("repo.search", r.index)
 
 	entry, err := r.index.Find(
 		x.IfThenElse(len(request.URL.RawPath) != 0, decodeUnreserved(request.URL.RawPath), request.URL.Path),
@@ -82,8 +86,11 @@ func (r *repository) FindRule(ctx heimdall.Context) (rule.Rule, error) {
 func (r *repository) AddRuleSet(_ string, rules []rule.Rule) error {
 	r.knownRulesMutex.Lock()
 	defer r.knownRulesMutex.Unlock()
+	veriftrace.Point("repo.klock")
+	defer veriftrace.Point("repo.kunlock")
 
 	tmp := r.index.Clone()
+	veriftrace.Point("repo.clone", r.index, tmp)
 
 	if err := r.addRulesTo(tmp, rules); err != nil {
 		return err
@@ -91,8 +98,12 @@ func (r *repository) AddRuleSet(_ string, rules []rule.Rule) error {
 
 	r.knownRules = append(r.knownRules, rules...)
 
+	veriftrace.Point("repo.mutated", tmp)
 	r.rulesTreeMutex.Lock()
+	veriftrace.Point("repo.tlock")
 	r.index = tmp
+	veriftrace.Point("repo.swap", tmp)
+	veriftrace.Point("repo.tunlock")
 	r.rulesTreeMutex.Unlock()
 
 	return nil
@@ -102,6 +113,8 @@ func (r *repository) UpdateRuleSet(srcID string, rules []rule.Rule) error {
 	// create rules
 	r.knownRulesMutex.Lock()
 	defer r.knownRulesMutex.Unlock()
+	veriftrace.Point("repo.klock")
+	defer veriftrace.Point("repo.kunlock")
 
 	// find all rules for the given src id
 	applicable := slicex.Filter(r.knownRules, func(r rule.Rule) bool { return r.SrcID() == srcID })
@@ -124,6 +137,7 @@ func (r *repository) UpdateRuleSet(srcID string, rules []rule.Rule) error {
 	toBeAdded := rules
 
 	tmp := r.index.Clone()
+	veriftrace.Point("repo.clone", r.index, tmp)
 
 	// delete rules
 	if err := r.removeRulesFrom(tmp, toBeDeleted); err != nil {
@@ -140,8 +154,12 @@ func (r *repository) UpdateRuleSet(srcID string, rules []rule.Rule) error {
 	})
 	r.knownRules = append(r.knownRules, toBeAdded...)
 
+	veriftrace.Point("repo.mutated", tmp)
 	r.rulesTreeMutex.Lock()
+	veriftrace.Point("repo.tlock")
 	r.index = tmp
+	veriftrace.Point("repo.swap", tmp)
+	veriftrace.Point("repo.tunlock")
 	r.rulesTreeMutex.Unlock()
 
 	return nil
@@ -150,11 +168,14 @@ func (r *repository) UpdateRuleSet(srcID string, rules []rule.Rule) error {
 func (r *repository) DeleteRuleSet(srcID string) error {
 	r.knownRulesMutex.Lock()
 	defer r.knownRulesMutex.Unlock()
+	veriftrace.Point("repo.klock")
+	defer veriftrace.Point("repo.kunlock")
 
 	// find all rules for the given src id
 	applicable := slicex.Filter(r.knownRules, func(r rule.Rule) bool { return r.SrcID() == srcID })
 
 	tmp := r.index.Clone()
+	veriftrace.Point("repo.clone", r.index, tmp)
 
 	// remove them
 	if err := r.removeRulesFrom(tmp, applicable); err != nil {
@@ -165,8 +186,12 @@ func (r *repository) DeleteRuleSet(srcID string) error {
 		return slices.Contains(applicable, r)
 	})
 
+	veriftrace.Point("repo.mutated", tmp)
 	r.rulesTreeMutex.Lock()
+	veriftrace.Point("repo.tlock")
 	r.index = tmp
+	veriftrace.Point("repo.swap", tmp)
+	veriftrace.Point("repo.tunlock")
 	r.rulesTreeMutex.Unlock()
 
 	return nil
